@@ -290,6 +290,23 @@ func checkC09(t core.TB, rec *core.Recorder, env *gen.Env, all *core.Set, p *cor
 						}
 					}
 				}
+				// (4b) a rewritten declaration keeps the function's type
+				if fd, ok := s.Node.(*ast.FuncDecl); ok {
+					if o0 := p.Info.Defs[fd.Name]; o0 != nil {
+						off0 := p.Fset.PositionFor(fd.Pos(), false).Offset
+						for _, d2 := range p2.Files[fi].Decls {
+							fd2, ok := d2.(*ast.FuncDecl)
+							if !ok || p2.Fset.PositionFor(fd2.Pos(), false).Offset != off0 {
+								continue
+							}
+							if o1 := p2.Info.Defs[fd2.Name]; o1 != nil {
+								if t0, t1 := typeStr(o0.Type()), typeStr(o1.Type()); t0 != t1 {
+									fail("type-changed", fmt.Sprintf("type of the function changes from %s to %s", t0, t1))
+								}
+							}
+						}
+					}
+				}
 				// (5) re-analysis no longer reports that diagnostic at that place (machine fixes;
 				// only when no other diagnostic of the checker overlaps the range)
 				if s.Origin == "fix" {
